@@ -43,10 +43,10 @@ func (t *tw) w(s string) {
 	}
 	t.sb.WriteString(s)
 }
-func (t *tw) i(v int64)       { t.w(strconv.FormatInt(v, 10)) }
-func (t *tw) n(v int)         { t.w(strconv.Itoa(v)) }
-func (t *tw) s(v string)      { t.w(hx.Hex([]byte(v))) }
-func (t *tw) String() string  { return t.sb.String() }
+func (t *tw) i(v int64)      { t.w(strconv.FormatInt(v, 10)) }
+func (t *tw) n(v int)        { t.w(strconv.Itoa(v)) }
+func (t *tw) s(v string)     { t.w(hx.Hex([]byte(v))) }
+func (t *tw) String() string { return t.sb.String() }
 func (t *tw) tags(ts osm.Tags) {
 	t.n(len(ts))
 	for _, tag := range ts {
@@ -544,48 +544,95 @@ func genSequence(c *hx.Ctx) []osm.Element {
 	return es
 }
 
-// genBig makes runs around elementsPerGroup (8000) so that the group-size flush is hit.
+// bigRun makes n consecutive elements of one kind (0 dense nodes, 1 ways, 2 relations). Elements within 12 of
+// a multiple of elementsPerGroup (8000) always carry strings (tag key, tag value, for relations also a member
+// role): with distinct = true strings that no other element has, so that their string-table indices differ
+// between the block that is full and the next one; otherwise strings shared by all elements.
+func bigRun(r *hx.Rand, kind int, n int, distinct bool, ids, refs *idGen) []osm.Element {
+	var es []osm.Element
+	for i := 0; i < n; i++ {
+		near := false
+		if m := (i + 12) % 8000; m <= 24 && i+12 >= 8000 {
+			near = true
+		}
+		var tags osm.Tags
+		role := ""
+		switch {
+		case near && distinct:
+			tags = osm.Tags{{Key: fmt.Sprintf("k%d", i), Value: fmt.Sprintf("v%d", i)}}
+			role = fmt.Sprintf("r%d", i)
+		case near:
+			tags = osm.Tags{{Key: "highway", Value: alphabet[i%len(alphabet)]}}
+			role = alphabet[(i+3)%len(alphabet)]
+		case r.Chance(1, 8):
+			tags = osm.Tags{{Key: alphabet[r.Intn(len(alphabet))], Value: fmt.Sprintf("v%d", r.Intn(50))}}
+			role = alphabet[r.Intn(len(alphabet))]
+		}
+		switch kind {
+		case 0:
+			es = append(es, &osm.Node{ID: osm.NodeID(ids.id(r)), Location: osm.LatLng{Lat: genCoord(r, 90), Lng: genCoord(r, 180)}, Tags: tags})
+		case 1:
+			w := &osm.Way{ID: osm.WayID(ids.id(r)), Tags: tags}
+			for q := r.Intn(3); q > 0; q-- {
+				w.Nodes = append(w.Nodes, osm.NodeID(refs.id(r)))
+			}
+			es = append(es, w)
+		default:
+			rel := &osm.Relation{ID: osm.RelationID(ids.id(r)), Tags: tags}
+			if near || r.Chance(1, 4) {
+				rel.Members = append(rel.Members, osm.Member{Type: osm.ElementType(r.Intn(3)), ID: osm.AnyID(refs.id(r)), Role: role})
+			}
+			es = append(es, rel)
+		}
+	}
+	return es
+}
+
+var bigKinds = []string{"dense", "ways", "relations"}
+
+// genBig: a run of one element kind that reaches or crosses elementsPerGroup (8000): one short of it, exactly,
+// by one, by many, and twice (16000 / 16001); sometimes a second run of another kind and a trailing element.
 func genBig(c *hx.Ctx) []osm.Element {
 	r := c.Rand
-	sizes := []int{7999, 8000, 8001, 16000, 16001, 8000 + r.Intn(300)}
-	var es []osm.Element
+	sizes := []int{7999, 8000, 8001, 8001, 16000, 16001, 8002 + r.Intn(400)}
 	ids := &idGen{mode: 0}
 	refs := &idGen{mode: 3}
-	runs := 1 + r.Intn(2)
-	for j := 0; j < runs; j++ {
-		n := sizes[r.Intn(len(sizes))]
-		k := r.Intn(3)
-		for i := 0; i < n; i++ {
-			switch k {
-			case 0:
-				nd := &osm.Node{ID: osm.NodeID(ids.id(r)), Location: osm.LatLng{Lat: genCoord(r, 90), Lng: genCoord(r, 180)}}
-				if r.Chance(1, 8) {
-					nd.Tags = osm.Tags{{Key: alphabet[r.Intn(len(alphabet))], Value: fmt.Sprintf("v%d", r.Intn(50))}}
-				}
-				es = append(es, nd)
-			case 1:
-				w := &osm.Way{ID: osm.WayID(ids.id(r))}
-				for q := r.Intn(3); q > 0; q-- {
-					w.Nodes = append(w.Nodes, osm.NodeID(refs.id(r)))
-				}
-				if r.Chance(1, 8) {
-					w.Tags = osm.Tags{{Key: "highway", Value: alphabet[r.Intn(len(alphabet))]}}
-				}
-				es = append(es, w)
-			default:
-				rel := &osm.Relation{ID: osm.RelationID(ids.id(r))}
-				if r.Chance(1, 4) {
-					rel.Members = append(rel.Members, osm.Member{Type: osm.ElementType(r.Intn(3)), ID: osm.AnyID(refs.id(r)), Role: alphabet[r.Intn(len(alphabet))]})
-				}
-				es = append(es, rel)
-			}
-		}
-		c.Note(fmt.Sprintf("big-run:%d", n))
+	kind := r.Intn(3)
+	n := sizes[r.Intn(len(sizes))]
+	distinct := r.Chance(2, 3)
+	es := bigRun(r, kind, n, distinct, ids, refs)
+	c.Note(fmt.Sprintf("big-run:%s:%s", bigKinds[kind], bucketBig(n)))
+	if distinct {
+		c.Note("big-run:strings-distinct-at-boundary")
+	} else {
+		c.Note("big-run:strings-shared")
+	}
+	if r.Chance(1, 4) { // a second full run, of another kind
+		k2 := (kind + 1 + r.Intn(2)) % 3
+		es = append(es, bigRun(r, k2, 8001, r.Bool(), ids, refs)...)
+		c.Note(fmt.Sprintf("big-run:%s:8001", bigKinds[k2]))
 	}
 	if r.Bool() { // something after the full group(s)
 		es = append(es, genNode(r, c, ids))
 	}
 	return es
+}
+
+func bucketBig(n int) string {
+	switch {
+	case n < 8000:
+		return "7999"
+	case n == 8000:
+		return "8000"
+	case n == 8001:
+		return "8001"
+	case n < 16000:
+		return "8002-8401"
+	case n == 16000:
+		return "16000"
+	default:
+		return "16001"
+	}
 }
 
 // ---- hand-built single blocks for the reader ---------------------------------------------------
@@ -785,8 +832,8 @@ func angles(c *hx.Ctx) {
 
 func main() {
 	hx.Main(hx.Family{
-		Name: "c27",
-		Rule: "element sequences (free interleavings, runs per type, nodes only, runs of 7999..16001 elements) written with osm.Writer, block structure dumped, read back with 1/2/8 goroutines; hand-built single blocks for the reader; encodeAngle/decodeAngle. non-trivial = a written file with at least 2 blocks and at least one tag",
+		Name:     "c27",
+		Rule:     "element sequences (free interleavings, runs per type, nodes only, runs of one kind (dense nodes / ways / relations) of 7999, 8000, 8001, 8002-8401, 16000, 16001 elements with distinct or shared strings at the group boundary) written with osm.Writer, block structure dumped, read back with 1/2/8 goroutines; hand-built single blocks for the reader; encodeAngle/decodeAngle. non-trivial = a written file with at least 2 blocks and at least one tag",
 		Quick:    2500,
 		Thorough: 25000,
 		Corpus: func(c *hx.Ctx) {
@@ -799,6 +846,11 @@ func main() {
 				&osm.Relation{ID: 0, Members: []osm.Member{{Type: osm.ElementTypeRelation, ID: math.MinInt64, Role: ""}, {Type: osm.ElementTypeWay, ID: math.MaxInt64, Role: "outer"}}},
 				&osm.Node{ID: 5, Location: osm.LatLng{Lat: 1e-10, Lng: -1e-10}},
 			})
+			// a run of one kind crossing elementsPerGroup by one, distinct strings at the boundary (seeded change
+			// C27-4: the relation that overflows a full group was encoded against the previous block's string table)
+			for kind := 0; kind < 3; kind++ {
+				roundTrip(c, bigRun(c.Rand, kind, 8001, true, &idGen{mode: 0}, &idGen{mode: 3}))
+			}
 			// finding cores-gt1-cross-block-order: two nodes and a way are two blocks; the callback sleeps after
 			// the first node, so with 2 or 8 goroutines the way (read by another goroutine) is seen before the
 			// second node: the callback order is not the file order
